@@ -6,8 +6,20 @@ Open Scope Z_scope.
    The proofs are by exhaustive case analysis on the scrutinees of the two sides (robust
    against renamings and reorderings of the generated text; a behavioural difference
    leaves an unprovable goal). *)
+Ltac atomic_bool x :=
+  lazymatch x with
+  | true => fail | false => fail
+  | context [negb _] => fail | context [andb _ _] => fail | context [orb _ _] => fail
+  | context [match _ with _ => _ end] => fail
+  | _ => first [is_var x; destruct x | destruct x eqn:?]
+  end.
 Ltac break_match :=
   match goal with
+  | |- context [negb ?x] => atomic_bool x           (* atoms of boolean conditions first *)
+  | |- context [andb ?x _] => atomic_bool x
+  | |- context [andb _ ?x] => atomic_bool x
+  | |- context [orb ?x _] => atomic_bool x
+  | |- context [orb _ ?x] => atomic_bool x
   | |- context [match ?x with _ => _ end] =>
       lazymatch x with
       | context [match _ with _ => _ end] => fail      (* innermost scrutinee first *)
@@ -483,11 +495,14 @@ Context {W H K : Type} (rt : runtime W H).
    [key p]       the file-system object a path string denotes
    [look k w]    what is there in world w: nothing, a directory, a regular file + content
    [fd_key fd w] the object an open descriptor refers to
-   [tmpdir]      the directory mkstemp uses when dir is None *)
+   [tmpdir]      the directory mkstemp uses when dir is None
+   [wlimit]      see below *)
 Variable key : bytes -> K.
 Variable look : K -> W -> option node.
 Variable fd_key : Z -> W -> option K.
 Variable tmpdir : bytes.
+(* the number of bytes one write(2) transfers at most (Linux: MAX_RW_COUNT = [wlimit]) *)
+Variable wlimit : Z.
 
 (* CONTRACT on os / tempfile (each clause is tested by the harness on the real calls) *)
 Record fs_contract : Prop := {
@@ -511,8 +526,8 @@ Record fs_contract : Prop := {
       look (key p) w = None /\ look (key p) w' = Some (NFile []) /\ fd_key fd w' = Some (key p) /\
       (forall k, k <> key p -> look k w' = look k w) /\
       (exists tag, p = (match d with Some x => x | None => tmpdir end) ++ [47%N] ++ pre ++ tag ++ s);
-  (* write on a descriptor of an empty file stores the whole buffer (up to MAX_RW_COUNT) *)
-  write_ok : forall fd k c w, fd_key fd w = Some k -> look k w = Some (NFile []) -> zlen c <= max_rw_count ->
+  (* write on a descriptor of an empty file stores the whole buffer when it fits one write(2) *)
+  write_ok : forall fd k c w, fd_key fd w = Some k -> look k w = Some (NFile []) -> zlen c <= wlimit ->
       exists w', rt_write rt fd c w = (w', OOk (zlen c)) /\ look k w' = Some (NFile c) /\
                  (forall k', k' <> k -> look k' w' = look k' w) /\ fd_key fd w' = Some k;
   close_ok : forall fd k w, fd_key fd w = Some k ->
@@ -607,7 +622,7 @@ Proof. intros Hrun. split; [exact (delete_if_exists_post _ _ _ Hrun)|exact (dele
 
 (* --- write_to_tempfile --- *)
 Lemma write_and_close_ok fd k c w2 :
-  fd_key fd w2 = Some k -> look k w2 = Some (NFile []) -> zlen c <= max_rw_count ->
+  fd_key fd w2 = Some k -> look k w2 = Some (NFile []) -> zlen c <= wlimit ->
   exists w4, write_and_close rt fd c w2 = (w4, OOk tt) /\ look k w4 = Some (NFile c) /\
              (forall k', k' <> k -> look k' w4 = look k' w2).
 Proof.
@@ -631,7 +646,7 @@ Definition tempfile_dir (path : option bytes) : bytes :=
        one (ensure_tree) BEFORE mkstemp ran,
    (5) everything that existed before is still there, unchanged. *)
 Theorem write_to_tempfile_spec content path suffix prefix w w' name :
-  zlen content <= max_rw_count ->
+  zlen content <= wlimit ->
   write_to_tempfile rt content path suffix prefix w = (w', OOk name) ->
   look (key name) w = None /\
   look (key name) w' = Some (NFile content) /\
@@ -679,7 +694,7 @@ Qed.
 
 (* it does succeed whenever mkstemp does (content within one write) ... *)
 Theorem write_to_tempfile_succeeds content path suffix prefix w w1 w2 fd name :
-  zlen content <= max_rw_count ->
+  zlen content <= wlimit ->
   (match path with
    | Some p => if nonempty p then ensure_tree rt p default_mode w else (w, OOk tt)
    | None => (w, OOk tt) end) = (w1, OOk tt) ->
